@@ -109,7 +109,13 @@ def gen_case(rng: random.Random):
     ram = dec(ram, 3)
     if ram <= 0:
         ram = F(1, 1000)
-    return {"tps": tps, "cpus": cpus, "ram": ram, "ops": ops}
+    case = {"tps": tps, "cpus": cpus, "ram": ram, "ops": ops}
+    if rng.random() < 0.2:
+        # a sweep: the caller defines the segment shapes ONCE and runs the same Segment objects first at another tick rate (mostly on the
+        # same number of cpus), then in the measured container - anything a Segment remembers from one run must not leak into the next
+        case["warm"] = [rng.choice([tps * 2, tps * 10, max(1, tps // 2), max(1, tps // 10), tps + 1]),
+                        int(2 * (cpus if rng.random() < 0.8 else rng.choice(CPUS)))]
+    return case
 
 
 def run_case(case, tid):
@@ -121,16 +127,19 @@ def run_case(case, tid):
     from eudoxia.utils import Priority
 
     tps, cpus, ram = case["tps"], case["cpus"], case["ram"]
+    shapes = [[Segment(baseline_cpu_seconds=float(sg["base"]), cpu_scaling=sg["law"],
+                       memory_gb=None if sg["fixed"] is None else float(sg["fixed"]),
+                       storage_read_gb=float(sg["read"])) for sg in segs] for segs in case["ops"]]
+    if case.get("warm"):
+        _warm_up(shapes, case, tid)
     p = Pipeline(f"t{tid}", Priority.BATCH_PIPELINE)
     ops, jops = [], []
     prev = None
-    for segs in case["ops"]:
+    for segs, objs in zip(case["ops"], shapes):
         o = p.new_operator([prev] if prev else None)
         js = []
-        for sg in segs:
-            o.add_segment(Segment(baseline_cpu_seconds=float(sg["base"]), cpu_scaling=sg["law"],
-                                  memory_gb=None if sg["fixed"] is None else float(sg["fixed"]),
-                                  storage_read_gb=float(sg["read"])))
+        for sg, obj in zip(segs, objs):
+            o.add_segment(obj)
             js.append({"law": sg["law"], "bnum": sg["base"].numerator, "bden": sg["base"].denominator,
                        "read": int(sg["read"] * 1000), "fixed": -1 if sg["fixed"] is None else int(sg["fixed"] * 1000),
                        "tio": math.floor(sg["read"] * tps / 20), "tcpu": cpu_ticks_exact(sg["law"], cpus, sg["base"], tps)})
@@ -172,7 +181,39 @@ def run_case(case, tid):
     except BaseException as e:  # noqa: BLE001
         obs["kind"], obs["exc"] = "raise", f"{type(e).__name__}: {str(e)[:80]}"
     obs["ost"] = [o.state().value for o in ops]
-    return {"tid": tid, "tps": tps, "c2": int(F(cpus) * 2), "ram": int(ram * 1000), "ops": jops, "obs": obs}
+    line = {"tid": tid, "tps": tps, "c2": int(F(cpus) * 2), "ram": int(ram * 1000), "ops": jops, "obs": obs}
+    if case.get("warm"):
+        line["warm"] = list(case["warm"])
+    return line
+
+
+def _warm_up(shapes, case, tid):
+    """The same Segment objects in another pipeline, run to the end in a pool with another tick rate (outcome not recorded)."""
+    from eudoxia.executor.resource_pool import ResourcePool
+    from eudoxia.executor.assignment import Assignment
+    from eudoxia.workload import Pipeline
+    from eudoxia.utils import Priority
+    tps2, c2w = case["warm"]
+    cw = F(c2w, 2)
+    cw = int(cw) if cw.denominator == 1 else float(cw)
+    try:
+        p = Pipeline(f"w{tid}", Priority.BATCH_PIPELINE)
+        ops, prev = [], None
+        for objs in shapes:
+            o = p.new_operator([prev] if prev else None)
+            for obj in objs:
+                o.add_segment(obj)
+            ops.append(o)
+            prev = o
+        p.runtime_status()
+        pool = ResourcePool(pool_id=0, cpu_pool=cw, ram_pool=float(case["ram"] * 2 + 1), ticks_per_second=tps2)
+        res = pool.run_one_tick([], [Assignment(ops, cw, float(case["ram"]), Priority.BATCH_PIPELINE, 0, p.pipeline_id)])
+        for _ in range(20000):
+            if res:
+                break
+            res = pool.run_one_tick([], [])
+    except BaseException:  # noqa: BLE001  (the warm-up only has to touch the objects)
+        pass
 
 
 SUSP_RATES = [1, 2, 3, 5, 7, 10, 60, 100, 1000, 10**4, 10**5, 16384, 30000, 44100, 48000, 60000, 65536, 70000, 90000, 99999]
